@@ -241,75 +241,177 @@ func C29(c *Ctx) {
 		}
 		c.Decide(he, r2, key(fn, "single-expiry-option"), fn.Pos(), 1, "a second expiry option is a syntax error", "the duplicate-expiry check (hasExpire) is gone")
 		c.Decide(pos, r2, key(fn, "expiry>0"), fn.Pos(), 1, "non-positive expiry is rejected", "the `num <= 0` rejection of expiry arguments is gone")
-		// relative expiry: the stored second must be strictly after `now`, because the engine
-		// treats expiresAt <= now as expired (isDeletedOrExpired / raftBackend): every comparison of
-		// now.Add(ttl).Unix() with now.Unix() uses <= (bump to the next second on equality)
-		relCmp, relBad := 0, ""
+		// relative expiry: the stored second must be strictly after the current second, because the
+		// engine treats expiresAt <= now as expired.  A deadline obtained by TRUNCATING a finer clock
+		// (t.Add(ttl).Unix(), (nowMs+ttl)/1000) can land on the current second and needs the bump guard
+		// `deadline <= now.Unix()`; a deadline nowUnix + n with n > 0 cannot.
+		isTrunc := func(v ssa.Value) bool {
+			v = Unwrap(v)
+			if isAdd, _ := unixOf(v); isAdd {
+				// t.Add(c).Unix() with a constant c >= 1s is nowUnix+1 or more: not a truncation risk
+				if call, ok := v.(*ssa.Call); ok {
+					if add, ok := call.Call.Args[0].(*ssa.Call); ok && len(add.Call.Args) == 2 {
+						if k, ok := ConstInt(add.Call.Args[1]); ok && k >= 1000000000 {
+							return false
+						}
+					}
+				}
+				return true
+			}
+			if bo, ok := v.(*ssa.BinOp); ok && bo.Op == token.QUO {
+				if k, ok := ConstInt(bo.Y); ok && k == 1000 && derivesFromClock(bo.X, 5) {
+					return true
+				}
+			}
+			return false
+		}
+		isNow := func(v ssa.Value) bool { _, n := unixOf(v); return n }
+		relCmp, relBad, truncs, guarded := 0, "", 0, 0
 		AllInstrs(fn, false, func(in ssa.Instruction) {
+			if v, ok := in.(ssa.Value); ok && isTrunc(v) {
+				// a PXAT-style absolute conversion (time.Unix(sec,nsec).Unix()) is not relative: skip
+				truncs++
+				has := false
+				var refs func(x ssa.Value, d int)
+				refs = func(x ssa.Value, d int) {
+					if d > 3 || x.Referrers() == nil {
+						return
+					}
+					for _, r := range *x.Referrers() {
+						switch y := r.(type) {
+						case *ssa.BinOp:
+							if (y.Op == token.LEQ && isNow(y.Y)) || (y.Op == token.GEQ && isNow(y.X)) {
+								has = true
+							}
+						case *ssa.Convert:
+							refs(y, d+1)
+						}
+					}
+				}
+				refs(v, 0)
+				if has {
+					guarded++
+				}
+			}
 			bo, ok := in.(*ssa.BinOp)
 			if !ok {
 				return
 			}
-			xa, xn := unixOf(bo.X)
-			ya, yn := unixOf(bo.Y)
 			switch {
-			case xa && yn: // expire OP now
+			case isTrunc(bo.X) && isNow(bo.Y):
 				relCmp++
 				if bo.Op != token.LEQ {
-					relBad = "expireAt " + bo.Op.String() + " now"
+					relBad = "deadline " + bo.Op.String() + " now"
 				}
-			case xn && ya: // now OP expire
+			case isNow(bo.X) && isTrunc(bo.Y):
 				relCmp++
 				if bo.Op != token.GEQ {
-					relBad = "now " + bo.Op.String() + " expireAt"
+					relBad = "now " + bo.Op.String() + " deadline"
 				}
 			}
 		})
-		c.Decide(relCmp >= 1 && relBad == "", r2, key(fn, "relative-expiry>now"), fn.Pos(), relCmp+1, fmt.Sprintf("%d relative-expiry guard(s), all bump when the truncated second is <= now", relCmp),
-			fmt.Sprintf("a relative expiry (EX/PX) that truncates to the current second is stored as-is (guard is `%s`, %d guard(s) found): the engine treats expiresAt <= now as expired, so the key is gone when SET replies OK", relBad, relCmp))
-		// every now.Add(ttl).Unix() that is not the one-second bump itself is covered by such a guard
-		unguarded := 0
+		c.Decide(relBad == "" && guarded == truncs, r2, key(fn, "relative-expiry>now"), fn.Pos(), relCmp+truncs+1, fmt.Sprintf("%d truncated deadline(s), each bumped when it is <= the current second (%d guard(s))", truncs, relCmp),
+			fmt.Sprintf("a relative expiry that truncates to the current second can be stored as-is (%d truncated deadline(s), %d guarded with `<= now`, offending guard `%s`): the engine treats expiresAt <= now as expired, so the key is gone when SET replies OK", truncs, guarded, relBad))
+		// the duration of a relative expiry must not be built as time.Duration(arg) * unit without an
+		// upper bound on arg (overflow wraps into the past): MUL of a ParseInt-derived value by a constant >= 1e6
+		mulBad := 0
 		AllInstrs(fn, false, func(in ssa.Instruction) {
-			call, ok := in.(*ssa.Call)
-			if !ok || !Named("(time.Time).Unix")(call.Common()) {
+			bo, ok := in.(*ssa.BinOp)
+			if !ok || bo.Op != token.MUL {
 				return
 			}
-			isAdd, _ := unixOf(call)
-			if !isAdd {
+			k, isK := ConstInt(bo.Y)
+			if !isK || k < 1000000 {
 				return
 			}
-			add := call.Call.Args[0].(*ssa.Call)
-			if k, ok := ConstInt(add.Call.Args[1]); ok && k == int64(1000000000) {
-				return // the bump itself
-			}
-			cmp := false
-			var refs func(v ssa.Value, d int)
-			refs = func(v ssa.Value, d int) {
-				if d > 3 || v.Referrers() == nil {
-					return
-				}
-				for _, r := range *v.Referrers() {
-					switch x := r.(type) {
-					case *ssa.BinOp:
-						if x.Op == token.LEQ || x.Op == token.GEQ || x.Op == token.LSS || x.Op == token.GTR {
-							cmp = true
+			if ex, ok := Unwrap(bo.X).(*ssa.Extract); ok {
+				if call, ok := ex.Tuple.(*ssa.Call); ok && Named("strconv.ParseInt")(call.Common()) {
+					// bounded above on a dominating edge?
+					bounded := false
+					for _, b := range fn.Blocks {
+						ifi := ifOf(b)
+						if ifi == nil || !b.Dominates(bo.Block()) {
+							continue
 						}
-					case *ssa.Convert:
-						refs(x, d+1)
+						if cmp, ok := ifi.Cond.(*ssa.BinOp); ok && (cmp.Op == token.GTR || cmp.Op == token.GEQ) && Unwrap(cmp.X) == ssa.Value(ex) {
+							bounded = true
+						}
+					}
+					if !bounded {
+						mulBad++
 					}
 				}
 			}
-			refs(call, 0)
-			if !cmp {
-				unguarded++
-			}
 		})
-		c.Decide(unguarded == 0, r2, key(fn, "relative-expiry-guarded"), fn.Pos(), 1, "every relative expiry computation is compared with now", fmt.Sprintf("%d relative expiry computation(s) are never compared with now", unguarded))
+		c.Decide(mulBad == 0, r2, key(fn, "relative-expiry#no-duration-overflow"), fn.Pos(), 1, "no unbounded client integer is scaled into a time.Duration", fmt.Sprintf("%d multiplication(s) scale an unbounded client-supplied integer to nanoseconds: large valid TTLs overflow time.Duration and wrap into the past", mulBad))
 		// setArgs passes nx/xx
 		for i, s := range need(c, r2, fn, false, "backend.Set", Named("("+redisPkg+".redisBackend).Set"), 1) {
 			_ = i
 			_ = s
 		}
+	}
+
+	const r2b = "K5.empty-value-is-a-value"
+	c.Rule(r2b, "an empty string is a value, not a missing key: every redisValue.Value of a found key is built non-nil (no append to a nil slice constant, which stays nil for an empty value and is written as the null bulk string); Txn.Get decides found-ness by the lookup error and the meta/expiry bits, never by `Value == nil`")
+	nv := 0
+	for _, f := range c.P.ModFuncs {
+		if FuncPkgPath(f) != Module+"/"+redisPkg {
+			continue
+		}
+		AllInstrs(f, false, func(in ssa.Instruction) {
+			st, ok := in.(*ssa.Store)
+			if !ok {
+				return
+			}
+			o, fld, ok := FieldOf(st.Addr)
+			if !ok || !strings.HasSuffix(o, "redisValue") || fld != "Value" {
+				return
+			}
+			nv++
+			bad := false
+			if call, ok := st.Val.(*ssa.Call); ok {
+				if bi, ok := call.Call.Value.(*ssa.Builtin); ok && bi.Name() == "append" && IsNilConst(call.Call.Args[0]) {
+					bad = true
+				}
+			}
+			c.Decide(!bad, r2b, key(f, fmt.Sprintf("redisValue.Value[%d]#non-nil-copy", ordinalOfStore(f, st))), st.Pos(), 1, "the value of a found key is never a nil slice", "a found key's value is copied with append(nil, v...): for the empty string the copy is nil and GET/MGET answer the null bulk string although the key exists")
+		})
+	}
+	c.Floor(r2b, nv, 2, "redisValue.Value stores")
+	txnGetFoundnessRule(c, r2b)
+	// DECRBY: negating the client's delta needs the MinInt64 guard
+	if fn := c.Fn(redisPkg, "redisServer.execute"); fn != nil {
+		negs, guardedNegs := 0, 0
+		AllInstrs(fn, false, func(in ssa.Instruction) {
+			u, ok := in.(*ssa.UnOp)
+			if !ok || u.Op != token.SUB {
+				return
+			}
+			ex, ok := Unwrap(u.X).(*ssa.Extract)
+			if !ok {
+				return
+			}
+			if call, ok := ex.Tuple.(*ssa.Call); !ok || !Named("strconv.ParseInt")(call.Common()) {
+				return
+			}
+			negs++
+			for _, b := range fn.Blocks {
+				ifi := ifOf(b)
+				if ifi == nil {
+					continue
+				}
+				bo, ok := ifi.Cond.(*ssa.BinOp)
+				if !ok || Unwrap(bo.X) != ssa.Value(ex) {
+					continue
+				}
+				if k, ok := bo.Y.(*ssa.Const); ok && k.Value != nil && k.Value.ExactString() == "-9223372036854775808" {
+					if (bo.Op == token.EQL && EdgeDominates(b, b.Succs[1], u.Block())) || (bo.Op == token.NEQ && EdgeDominates(b, b.Succs[0], u.Block())) {
+						guardedNegs++
+					}
+				}
+			}
+		})
+		c.Decide(negs == guardedNegs, r2b, key(fn, "negated-delta#MinInt64-guard"), fn.Pos(), negs+1, fmt.Sprintf("%d negation(s) of a client integer, each behind delta != MinInt64", negs), fmt.Sprintf("%d of %d negations of a client-supplied int64 lack the MinInt64 guard: -MinInt64 is MinInt64, so DECRBY with that argument is applied as an addition instead of reporting overflow", negs-guardedNegs, negs))
 	}
 
 	const r3 = "K5.backend-agreement"
@@ -731,4 +833,94 @@ func unixOf(v ssa.Value) (isAdd, isNow bool) {
 		}
 	}
 	return false, false
+}
+
+// derivesFromClock: v is computed (through +, -, conversions, phis) from a time.Time clock
+// reading (Unix, UnixMilli, UnixNano).
+func derivesFromClock(v ssa.Value, depth int) bool {
+	if depth <= 0 {
+		return false
+	}
+	switch x := Unwrap(v).(type) {
+	case *ssa.Call:
+		return Named("(time.Time).UnixMilli", "(time.Time).UnixNano", "(time.Time).Unix", "(time.Time).UnixMicro")(x.Common())
+	case *ssa.BinOp:
+		return derivesFromClock(x.X, depth-1) || derivesFromClock(x.Y, depth-1)
+	case *ssa.Phi:
+		for _, e := range x.Edges {
+			if derivesFromClock(e, depth-1) {
+				return true
+			}
+		}
+	}
+	return false
+}
+
+func ordinalOfStore(f *ssa.Function, st *ssa.Store) int {
+	n := 0
+	for _, b := range f.Blocks {
+		for _, in := range b.Instrs {
+			if s2, ok := in.(*ssa.Store); ok {
+				if o, fld, ok := FieldOf(s2.Addr); ok && strings.HasSuffix(o, "redisValue") && fld == "Value" {
+					n++
+					if s2 == st {
+						return n
+					}
+				}
+			}
+		}
+	}
+	return 0
+}
+
+// returnsSentinelAnywhere: some return within a few blocks of b returns the named sentinel error.
+func returnsSentinelAnywhere(fn *ssa.Function, b *ssa.BasicBlock, name string, depth int) bool {
+	if depth < 0 || b == nil {
+		return false
+	}
+	ei := ErrorResultIndex(fn)
+	if len(b.Instrs) > 0 {
+		if r, ok := b.Instrs[len(b.Instrs)-1].(*ssa.Return); ok {
+			if u, ok := RetVal(r, ei).(*ssa.UnOp); ok {
+				if g, ok := u.X.(*ssa.Global); ok && g.Name() == name {
+					return true
+				}
+			}
+			return false
+		}
+	}
+	for _, s := range b.Succs {
+		if returnsSentinelAnywhere(fn, s, name, depth-1) {
+			return true
+		}
+	}
+	return false
+}
+
+// txnGetFoundnessRule: Txn.Get must not use `Value == nil` to decide that a key is missing.
+func txnGetFoundnessRule(c *Ctx, rule string) {
+	if fn := c.Fn("", "Txn.Get"); fn != nil {
+		bad := false
+		for _, b := range fn.Blocks {
+			ifi := ifOf(b)
+			if ifi == nil {
+				continue
+			}
+			var visit func(v ssa.Value) bool
+			visit = func(v ssa.Value) bool {
+				bo, ok := v.(*ssa.BinOp)
+				if !ok {
+					return false
+				}
+				if bo.Op == token.EQL && IsNilConst(bo.Y) && isFieldLoad(bo.X, "kv.Entry", "Value") {
+					return true
+				}
+				return false
+			}
+			if visit(ifi.Cond) && returnsSentinelAnywhere(fn, b.Succs[0], "ErrKeyNotFound", 3) {
+				bad = true
+			}
+		}
+		c.Decide(!bad, rule, key(fn, "found-ness#not-by-nil-value"), fn.Pos(), 1, "Txn.Get does not treat a nil value as a missing key", "Txn.Get reports ErrKeyNotFound when the entry's value is nil: an entry holding the empty string reads back from an SST with a nil value, so a live key turns invisible to transactional reads after a flush")
+	}
 }
